@@ -96,6 +96,20 @@ Definition model_agrees (mws : list middleware) (o : observed) : bool :=
     data_eqb (oc_data m) (ob_data o) && opt_nat_eqb (oc_err m) (ob_err o))) &&
   forallb (fun c => nat_list_eqb c (request_mws mws)) (ob_calls o).
 
+(* "after the gateway's join identifiers have been removed": when the client's operation selects no
+   field under the response key id anywhere, no object the first response middleware is handed has
+   a key id (whatever is there was put there by the planner) *)
+Fixpoint has_key (k : string) (j : json) {struct j} : bool :=
+  match j with
+  | JArr l => (fix any (l : list json) : bool := match l with [] => false | x :: r => has_key k x || any r end) l
+  | JObj m => (fix any (m : list (string * json)) : bool :=
+                 match m with [] => false | (k', v) :: r => String.eqb k k' || has_key k v || any r end) m
+  | _ => false
+  end.
+
+Definition ids_removed (o : observed) : bool :=
+  match ob_seen o with Some d :: _ => negb (has_key "id" (JObj d)) | _ => true end.
+
 (* the property, on the observation alone *)
 Fixpoint prefix_upto_fail (l : list respmw) : list respmw :=
   match l with [] => [] | r :: rest => if rm_fails r then [r] else r :: prefix_upto_fail rest end.
